@@ -157,6 +157,32 @@ M('M15.13', 'C15', 'atomman/defect/point.py',
 M('M15.14', 'C15', 'atomman/defect/point.py', "        return vacancy(system, pos=pos, ptd_id=ptd_id, scale=scale, atol=atol)",
   "        return vacancy(system, pos=pos, ptd_id=ptd_id, scale=scale)", 'point() drops atol for vacancies')
 
+# ---- C09 -------------------------------------------------------------------
+# M09.1 (named reset without the SI baseline) was dropped: unit ratios are epoch independent, so every CHOSEN unit
+# still evaluates to one and the statement holds; only unchosen base units keep their previous values.
+M('M09.2', 'C09', 'atomman/unitconvert.py',
+  "        # Compute powers\n        while '^' in terms:\n            c = terms.index('^')\n            value = [terms[c-1] ** terms[c+1]]\n            terms = terms[:c-1] + value + terms[c+2:]\n",
+  "", '^ no longer binds tighter: powers handled... never (raises) ')
+M('M09.3', 'C09', 'atomman/unitconvert.py',
+  "            if terms[1] == '*':\n                value = [terms[0] * terms[2]]\n                terms = value + terms[3:]\n            elif terms[1] == '/':\n                value = [terms[0] / terms[2]]\n                terms = value + terms[3:]",
+  "            if terms[-2] == '*':\n                value = [terms[-3] * terms[-1]]\n                terms = terms[:-3] + value\n            elif terms[-2] == '/':\n                value = [terms[-3] / terms[-1]]\n                terms = terms[:-3] + value",
+  '* and / evaluated right to left')
+M('M09.4', 'C09', 'atomman/lammps/style.py', "        params['pressure'] =            'pg/(um*us^2)'", "        params['pressure'] =            'pg/(um^2*us^2)'",
+  'micro pressure entry has the wrong dimension')
+M('M09.5', 'C09', 'atomman/unitconvert.py', "            nu.C = unit['C'] / unit[kwargs['charge']]", "            nu.C = unit[kwargs['charge']] / unit['C']",
+  'charge base inverted')
+M('M09.6', 'C09', 'atomman/unitconvert.py', "nu.m = (J * nu.s**2 / nu.kg)**0.5", "nu.m = (J * nu.s**2 / nu.kg)", 'revert of the sqrt fix')
+M('M09.7', 'C09', 'atomman/unitconvert.py', "        # Rebuild derived units and unit dictionary\n        nu.set_derived_units_and_constants()\n        build_unit()",
+  "        # Rebuild derived units and unit dictionary\n        nu.set_derived_units_and_constants()", 'unit dictionary not rebuilt after a named reset (stale table)')
+M('M09.8', 'C09', 'atomman/unitconvert.py', "            value = [terms[c-1] ** terms[c+1]]", "            value = [terms[c-1] ** abs(terms[c+1])]", 'negative exponents lose their sign')
+M('M09.9', 'C09', 'atomman/unitconvert.py', "            elif units[i] in ' \\n\\r\\t':\n                i += 1", "            elif units[i] in ' \\n\\r':\n                i += 1",
+  'tab no longer accepted as blank')
+M('M09.10', 'C09', 'atomman/unitconvert.py', "    if (len(kwargs) == 0):\n        \n        nu.reset_units(seed)\n        build_unit()",
+  "    if (len(kwargs) == 0):\n        \n        nu.reset_units(seed)\n        if seed is not None:\n            build_unit()", 'unseeded random reset leaves the old dictionary')
+M('M09.11', 'C09', 'atomman/lammps/style.py', "        params['velocity'] =            '2*Ry*aBohr/hbar'", "        params['velocity'] =            '2*Ry/aBohr/hbar'",
+  'electron velocity entry dimension')
+M('M09.12', 'C09', 'atomman/unitconvert.py', "                nu.s = (nu.kg * nu.m**2 / J)**0.5", "                nu.s = (nu.kg * nu.m**2 / J)", 'time derived without root')
+
 
 def _flex(old):
     """Regex for `old` that tolerates trailing blanks and whitespace-only lines."""
